@@ -45,7 +45,7 @@ class JMHAdapter(GaugeAdapter):
             # that include an error column, which will be considered as an error
             # by check_for_error() heuristics.
             if self.re_complete.search(line):
-                return data_points
+                break
 
             if self.check_for_error(line):
                 raise ResultsIndicatedAsInvalid(
